@@ -107,8 +107,12 @@ def run(ck, ctx):
     jobs += [dict(module="clauses", only_rules={"O-accept", "O-raise"}, build_kw=dict(group=g, tier=ck.tier)) for g in GROUPS if g != "oracle"]
     run_fragments(ck, ctx, jobs)
     # ---- E7: the line pre-processing itself never raises (whatever the line)
-    from ..specs.lines import check_no_raise
+    from ..specs.lines import check_no_raise, check_silent, check_error_hooks
     check_no_raise(ck, ctx)
     ck.floor("O-noraise", 40)
+    # ---- silent mode, semantically: the statement driver with the LALR call stubbed, and the two PLY error hooks
+    check_silent(ck, ctx)
+    check_error_hooks(ck, ctx)
+    ck.floor("O-silent", 12)
     ck.assumptions += ["PLY calls p_error exactly when an action-table entry is missing and t_error exactly when no lexer rule matches",
                        "exceptions thrown by actions on malformed values (int('abc'), KeyError) are declined (DESIGN 4 C16)"]
